@@ -1,0 +1,29 @@
+//go:build !verif
+
+package parser
+
+// Verification hooks (see verif_on.go). Without the build tag "verif"
+// they are empty and compile to nothing.
+
+const (
+	vStart = iota
+	vExit
+	vSpawn
+	vRecv
+	vSend
+	vSendPost
+	vErr
+	vReadErr
+	vCopyErr
+	vJoin
+	vHPush
+	vHPop
+	vHWait
+	vReturn
+)
+
+func vpoint(l *lexer, kind int)    {}
+func vspawn(parent, l *lexer)      {}
+func vsend(l *lexer)               {}
+func vsendPost(l *lexer)           {}
+func vhpoint(h *heredoc, kind int) {}
